@@ -118,15 +118,17 @@ class Rule:
                         if isinstance(datum, k):
                             try:
                                 datum = v(datum)
-                                break
                             except (TypeError, ValueError):
-                                pass
-                    # write into the copy along the concrete path (map keys of any
-                    # type and list indices):
-                    parent = data_copy
-                    for key in datum_path[:-1]:
-                        parent = parent[key]
-                    parent[datum_path[-1]] = datum
+                                continue
+                            if datum_path:
+                                # write the cast value into the copy along the
+                                # concrete path (map keys of any type and list
+                                # indices); nodes that are not cast are left alone:
+                                parent = data_copy
+                                for key in datum_path[:-1]:
+                                    parent = parent[key]
+                                parent[datum_path[-1]] = datum
+                            break
 
         return RuleTest(self, data_copy)
 
